@@ -218,6 +218,9 @@ func c08Deposit(e *Engine, mask uint32, withCaller bool, amt *big.Int, v int, de
 	if mask&P10Caller != 0 {
 		caller = [][]byte{nil, make([]byte, 32), Structured32(1)[:31], append(Structured32(1), 2)}[v%4]
 	}
+	if mask&(PFrom|P8P9Deps) == 0 && v%5 == 3 {
+		from = LongAcct() // a depositor whose address is 32 bytes long
+	}
 	if mask&P8P9Deps != 0 && v%3 == 0 && mask&PFrom == 0 {
 		from = Acct(PoorIx) // cannot pay
 	}
